@@ -924,7 +924,7 @@ func usesTrace(n *rNode, ct *Contract) bool {
 		switch n.Text {
 		case "count", "iter", "callarg", "callpos", "pushpos", "pushes", "lastpushed", "delivered", "nolocks", "held",
 			"sqlAllInTxn", "writesAllInTxn", "oneTxn", "casDrawnInTxn", "lockedThroughout", "postsAfterCommit", "stmtsScoped",
-			"tracepos", "scanned", "callret", "callretval", "callrecv", "rangekey", "updkey", "updval", "cbret", "callbackarg", "stmtWhereOn", "stmtParamOf", "stmtCount", "cursorWhere", "cursorOrderBy", "cursorCount", "cursorRow", "cursorId", "lenlist", "intxn":
+			"tracepos", "scanned", "callret", "callretval", "callrecv", "rangekey", "updkey", "updval", "cbret", "callbackarg", "leftloopearly", "stmtWhereOn", "stmtParamOf", "stmtCount", "cursorWhere", "cursorOrderBy", "cursorCount", "cursorRow", "cursorId", "lenlist", "intxn":
 			return true
 		}
 	case "id":
